@@ -11,7 +11,7 @@ constant prunes the infeasible edges (this is how drop flags are followed into c
 This is a value-numbering style analysis: nothing is executed, lengths stay symbols.
 """
 
-from .poly import Poly, fact_cmp, NEG, prove, refute
+from .poly import norm_fact, Poly, fact_cmp, NEG, prove, refute
 from .tys import TyEnv, tstr, pointee, adt_args, is_ga, strip_wrappers
 
 ITER_ADAPTORS = {"enumerate", "zip", "map", "rev", "skip", "take", "step_by", "chain", "filter", "peekable", "skip_while",
@@ -512,11 +512,13 @@ class Analysis:
         if res.startswith("<core::option::Option<T> as core::ops::FromResidual<core::option::Option<core::convert::Infallible>>>::from_residual"):
             return ("A", ("adt", OPT, 0), ())
         if res.startswith("<core::result::Result<T, F> as core::ops::FromResidual<core::result::Result<core::convert::Infallible, E>>>::from_residual") and args:
+            # the residual of a Result is always its Err: the result is Err(From::from(e)) - the identity conversion when both error types are the same type
             r_ = adt(args[0], RES)
             ra = [x for x in (cs.term["f"].get("res_args") or []) if x.get("k") != "region"]
-            # Err(e) -> Err(From::from(e)); the identity conversion when the two error types are the same type
-            if r_ is not None and r_[1][2] == 1 and len(ra) >= 3 and tstr(ra[1]) == tstr(ra[2]):
+            same = len(ra) >= 3 and tstr(ra[1]) == tstr(ra[2])
+            if r_ is not None and r_[1][2] == 1 and same:
                 return ("A", ("adt", RES, 1), (r_[2][0],))
+            return ("A", ("adt", RES, 1), (("V", "residual", (cs.bb,), args[0] if same else None),))
 
         if fn in ("core::slice::<impl [T]>::len",):
             p = ptr()
@@ -908,6 +910,17 @@ class Analysis:
                         # two-variant enums: otherwise is the other variant
                         s2.facts = s2.facts | {("variant", inner, 1 - next(iter(seen)))} if next(iter(seen)) in (0, 1) else s2.facts
                     out.append((t["otherwise"], s2))
+            elif d[0] == "I":
+                # switch on an integer term: the taken arm knows its value, the otherwise arm knows what it is not
+                for val, b in targets:
+                    s2 = st.copy()
+                    f_ = norm_fact(("==", d[1] - Poly.const(val)))
+                    if not (f_[1].is_const() and f_[1].const_value() != 0):
+                        s2.facts = s2.facts | {("poly",) + f_}
+                        out.append((b, s2))
+                s2 = st.copy()
+                s2.facts = s2.facts | {("poly",) + norm_fact(("!=", d[1] - Poly.const(val))) for val, _ in targets}
+                out.append((t["otherwise"], s2))
             else:
                 for val, b in targets:
                     out.append((b, st.copy()))
